@@ -103,6 +103,8 @@ def opOf : Sexp → Option Op
   | .list [.atom "parse", v] => (valOf v).map .parse
   | .list [.atom "coll", c, v] => do let c' ← c.int?; let v' ← valOf v; pure (.coll c' v')
   | .list [.atom "mnew"] => some .mnew
+  | .list [.atom "tree", v] => (valOf v).map .tree
+  | .list [.atom "get", r, x] => do let r' ← idxOfSexp r; let x' ← elemOf x; pure (.get r' x')
   | .list [.atom "add", r, x] => do let r' ← idxOfSexp r; let x' ← elemOf x; pure (.add r' x')
   | .list [.atom "delete", r, x] => do let r' ← idxOfSexp r; let x' ← elemOf x; pure (.delete r' x')
   | .list [.atom "addall", r, s] => do let r' ← idxOfSexp r; let s' ← idxOfSexp s; pure (.addAll r' s')
@@ -171,6 +173,8 @@ def showShape (st : HState) : String :=
 
 def usesAt : Op → Bool
   | .at _ _ => true
+  | .get _ _ => true
+  | .tree _ => true
   | _ => false
 
 def exec : List Sexp → String
